@@ -549,7 +549,15 @@ func hasDynamicIndex(e string) bool {
 
 // BoundCase applies the bound to an expression and to the input it runs on:
 // with a dynamic index, numbers of the document can become indices too.
+var recAssign = regexp.MustCompile(`\.\.\.?\s*[-+*/]?=([^=]|$)`)
+
 func BoundCase(e, input string) (string, string) {
+	// an assignment to every node of a recursive descent whose value holds the context again (`.. = .`,
+	// `... = .. = .`) embeds the document into itself once per node: exponential output by construction
+	// (3 keys: 64 GB), not a crash site. The descent is replaced by a plain path.
+	if recAssign.MatchString(e) {
+		e = strings.ReplaceAll(strings.ReplaceAll(e, "...", ".a"), "..", ".a")
+	}
 	if !hasDynamicIndex(e) {
 		return e, input
 	}
